@@ -20,6 +20,7 @@ from ._c07_prov import (Interp, Validators, T, P, C, NONE, attr, sub, fn, call, 
                         call_args, subterms, contains, show, bind_terms, ceval, pc_holds, Undef, strip_list,
                         anchor_unsupported)
 from .c07 import Merged, metric_call_signature, EvalAnalysis, FUNCS, CLASSES, BASE, VMOD
+from .c07 import as_row as _c07_as_row
 
 TUNE = "sktime/forecasting/model_selection/_tune.py"
 SELF = P("self")
@@ -94,6 +95,40 @@ def cell_of(t):
             and not (isinstance(b.a[1], T) and b.a[1].op in ("tuple", "slice")):
         return b.a[0].a[0], b.a[1], i
     return None
+
+
+def acc_source(t):
+    """Strip accumulators: ``base.extend(xs)`` / ``list(...)``.  Returns (what was added last, list of accumulator bases)."""
+    bases = []
+    t = strip_list(t)
+    while isinstance(t, T) and t.op == "extended":
+        bases.append(t.a[0])
+        t = strip_list(t.a[1])
+    return t, bases
+
+
+def resolve_cond(t, val):
+    """Pick the arm of (nested) conditional values under the valuation ``val`` (Undef if a test is not evaluable)."""
+    while isinstance(t, T) and t.op == "ifexp":
+        t = t.a[1] if bool(ceval(t.a[0], val)) else t.a[2]
+    return t
+
+
+def signed(t):
+    """(sign, core) with unary minus / multiplication by -1 stripped."""
+    sign = 1
+    while isinstance(t, T):
+        if t.op == "unop" and t.a[0] == "USub":
+            sign, t = -sign, t.a[1]
+        elif t.op == "binop" and t.a[0] == "Mult" and (t.a[1] == C(-1) or t.a[2] == C(-1)):
+            sign, t = -sign, (t.a[2] if t.a[1] == C(-1) else t.a[1])
+        else:
+            break
+    return sign, t
+
+
+def gib_atoms(t):
+    return {x for x in subterms(t) if isinstance(x, T) and x.op == "attr" and x.a[1] == "greater_is_better"}
 
 
 def rel_pc(ev, ref_pc):
@@ -287,10 +322,16 @@ def check_fit(ctx, repo, out, cls, bool_typed, eval_score_key, signs):
     ranked_col = None  # (table, column term) of the column that is ranked / selected on
     # the results table: pd.DataFrame(<per-candidate map>)
     res_table = None
-    tables = [e.term for e in A.events if e.kind == "call" and not e.stack and e.callee == fn("pandas.DataFrame") and e.args
-              and isinstance(strip_list(e.args[0]), T) and strip_list(e.args[0]).op == "map"]
+    tables = [e for e in A.events if e.kind == "call" and not e.stack and e.callee == fn("pandas.DataFrame") and e.args
+              and isinstance(acc_source(e.args[0])[0], T) and acc_source(e.args[0])[0].op == "map"]
     if len(tables) == 1:
-        res_table = tables[0]
+        res_table = tables[0].term
+        # the table holds the rows of *this* search only: an accumulator it is built from starts empty in this call of fit
+        stale = [b_ for b_ in acc_source(tables[0].args[0])[1] if not (isinstance(b_, T) and b_.op == "list" and not b_.a[0])]
+        out.check(scen, not stale, "R2", "%s.fit:results-of-this-search" % D, "the results table is built from this search's candidates only",
+                  "the results table is built from the accumulator %s, which fit never resets: a second fit (or a tuner whose __init__ created "
+                  "it) ranks the rows of earlier searches as well, and best_index_ can point at a candidate of a previous fit"
+                  % (show(stale[0]) if stale else ""), L(tables[0]), vkey="accumulator-not-reset")
     if bi is None:
         out.add(scen, "violation", "R1", "%s.fit:best_index_" % D, "fit does not store best_index_", loc0, "not-stored")
     else:
@@ -339,7 +380,41 @@ def check_fit(ctx, repo, out, cls, bool_typed, eval_score_key, signs):
                                                "table (default RangeIndex: position == label)"), loc_bi)
             co = column_of(series)
             rank_val = lookup_col(co[0], co[1]) if co is not None else (series if is_mcall(series, "rank") else None)
-            if rank_val is not None and is_mcall(rank_val, "rank"):
+            direct = None
+            if rank_val is None and isinstance(series, T) and (series.op in ("ifexp", "unop", "binop")):
+                # arg-extremum taken directly on the score column, possibly sign-normalised under a test of greater_is_better
+                gsx = gib_atoms(series)
+                try:
+                    per_g = {}
+                    for g in (True, False):
+                        sg, core = signed(resolve_cond(series, {x: g for x in gsx}))
+                        sg2, core = signed(resolve_cond(core, {x: g for x in gsx}))
+                        per_g[g] = (sg * sg2, column_of(core))
+                    if per_g[True][1] is not None and per_g[True][1] == per_g[False][1]:
+                        direct = per_g
+                except Undef:
+                    direct = None
+            if direct is not None:
+                ranked_col = direct[True][1]
+                out.check(scen, None if res_table is None else table_core(ranked_col[0]) == res_table, "R1", "%s.fit:ranked-table" % D,
+                          "the selected column belongs to the table of per-candidate results",
+                          "the selected column is taken from another table than the per-candidate results", loc_bi, vkey="table")
+                picks_low = {g: (how in MIN_SEL) == (direct[g][0] == 1) for g in direct}
+                wrong = direction_wrong(picks_low, signs)
+                out.check(scen, not wrong, "R1", "%s.fit:rank-direction" % D,
+                          "%s of the score column with sign %+d / %+d for greater_is_better = True / False selects the best candidate"
+                          % (how, direct[True][0], direct[False][0]),
+                          "greater_is_better=%r: %s of %s the mean score (wrapper %s returns %s the metric) selects the worst candidate"
+                          % (wrong[0][0], how, "minus" if direct[wrong[0][0]][0] < 0 else "plus", wrong[0][1], "minus" if wrong[0][2] < 0 else "plus")
+                          if wrong else "", loc_bi, vkey="direct")
+                gsx = gib_atoms(series)
+                if gsx:
+                    out.check(scen, all(A.is_scoring(x.a[0]) for x in gsx), "R1", "%s.fit:rank-direction:metric" % D,
+                              "direction is read from the checked self.scoring", "direction is read from another object than the metric used for "
+                              "evaluation", loc_bi, vkey="other-metric")
+                    G = sorted(gsx, key=repr)[0]
+                out.add(scen, "ok", "R1", "%s.fit:best-index-selects-rank-1" % D, "direct arg-extremum of the (sign-normalised) score column", loc_bi)
+            elif rank_val is not None and is_mcall(rank_val, "rank"):
                 args, kw = call_args(rank_val)
                 asc = kw.get("ascending", C(True))
                 if rank_val.node is not None:
@@ -462,7 +537,7 @@ def check_fit(ctx, repo, out, cls, bool_typed, eval_score_key, signs):
     score_col = None
     prefix = None
     if len(evals) != 1 or cand_map is None or not is_call(res_table, fn("pandas.DataFrame")) \
-            or strip_list(res_table.a[1][0] if res_table.a[1] else None) != cand_map:
+            or acc_source(res_table.a[1][0] if res_table.a[1] else None)[0] != cand_map:
         out.add(scen, "undecided", "R3", "%s.fit:candidates" % D, "expected one evaluate() call inside one per-candidate map feeding "
                 "pd.DataFrame(...) (found %d evaluate call(s), %d map(s))" % (len(evals), len(maps)), loc0)
     else:
@@ -539,9 +614,9 @@ def check_fit(ctx, repo, out, cls, bool_typed, eval_score_key, signs):
                     return [[]]
                 if depth > 12 or not isinstance(t, T):
                     return None
-                if t.op == "phi":
+                if t.op in ("phi", "ifexp"):
                     res = []
-                    for x in t.a[0]:
+                    for x in (t.a[0] if t.op == "phi" else (t.a[1], t.a[2])):
                         r_ = chains(x, depth + 1)
                         if r_ is None:
                             return None
@@ -618,6 +693,29 @@ def check_fit(ctx, repo, out, cls, bool_typed, eval_score_key, signs):
                               L(ev), vkey="column")
             # generator
             cands = strip_list(elem.a[0])
+            if isinstance(cands, T) and cands.op == "loopout":
+                # candidates collected in a loop (e.g. over the sub-grids of a list-valued param_grid)
+                nm_, init_, end_, lid_ = cands.a
+                keeps = any(isinstance(x, T) and x.op == "carried" and x.a[0] == nm_ for x in subterms(end_))
+                gens = [x for x in subterms(end_) if is_call(x) and isinstance(x.a[0], T) and x.a[0].op == "fn" and x.a[0].a[0] in GENERATORS]
+                lp_ = A.interp.loops.get(lid_)
+                src_ok = False
+                if lp_ is not None and gens:
+                    from ._c07_prov import arms as _arms
+                    srcs = _arms(lp_.iter) or [lp_.iter]
+                    src_ok = all(x == attr(SELF, GENERATORS[gens[0].a[0].a[0]][0]) or
+                                 (isinstance(x, T) and x.op == "list" and x.a[0] == (attr(SELF, GENERATORS[gens[0].a[0].a[0]][0]),)) for x in srcs) \
+                        and all(g_.a[1][:1] == (T("elem", strip_list(lp_.iter), lid_),) for g_ in gens)
+                if gens and not keeps:
+                    out.add(scen, "violation", "R3", "%s._run_search:generator" % cls.name,
+                            "the candidate list is re-bound in every iteration of the loop over the sub-grids (%s): only the candidates of the last "
+                            "sub-grid are evaluated" % show(end_)[:100], loc0, "last-sub-grid-only")
+                elif gens and keeps and src_ok:
+                    out.add(scen, "ok", "R3", "%s._run_search:generator" % cls.name, "the candidates of every sub-grid of self.%s are accumulated"
+                            % GENERATORS[gens[0].a[0].a[0]][0], loc0)
+                else:
+                    out.add(scen, "undecided", "R3", "%s._run_search:generator" % cls.name, "candidate accumulation not understood: %s" % show(end_)[:120], loc0)
+                cands = None
             if isinstance(cands, T) and cands.op == "attr" and cands.a[0] == SELF:
                 # candidates read from an attribute: where is it established?  (H4: must not be a copy frozen in __init__)
                 hit = repo.lookup_method(cls, "__init__")
@@ -680,6 +778,28 @@ def check_fit(ctx, repo, out, cls, bool_typed, eval_score_key, signs):
             out.add(scen, "undecided", "R2", "%s.fit:%s" % (D, name), "fit does not store %s" % name, loc0)
             continue
         ce = cell_of(v)
+        if ce is None and isinstance(v, T) and v.op == "sub":
+            # a cell of a (sign-normalised / conditional) column: series.loc[row] / series[row]
+            ser = v.a[0].a[0] if isinstance(v.a[0], T) and v.a[0].op == "attr" and v.a[0].a[1] in ("loc", "iloc", "at", "iat") else v.a[0]
+            gsx = gib_atoms(ser)
+            try:
+                sg = {}
+                cols = set()
+                for g in (True, False):
+                    s1, core = signed(resolve_cond(ser, {x: g for x in gsx}))
+                    s2, core = signed(resolve_cond(core, {x: g for x in gsx}))
+                    sg[g] = s1 * s2
+                    cols.add(column_of(core))
+                if len(cols) == 1 and None not in cols:
+                    tb_, cl_ = cols.pop()
+                    ce = (tb_, v.a[1], cl_)
+                    if name == "best_score_":
+                        neg = [g for g in sg if sg[g] != 1]
+                        out.check(scen, not neg, "R2", "%s.fit:best_score_:sign" % D, "best_score_ is the mean score itself",
+                                  "best_score_ is read from a sign-normalised temporary: for greater_is_better=%r it is minus the mean score of "
+                                  "the best candidate (cv_results_ holds the positive value)" % (neg[0] if neg else None), locv, vkey="negated")
+            except Undef:
+                ce = None
         if ce is None:
             out.add(scen, "undecided", "R2", "%s.fit:%s" % (D, name), "%s is not a single table cell: %s" % (name, show(v)), locv)
             continue
@@ -694,9 +814,9 @@ def check_fit(ctx, repo, out, cls, bool_typed, eval_score_key, signs):
 
     def unfit(t):
         """``est.fit(...)`` returns ``est`` (sktime contract, C04-R5): the object stored is the receiver."""
-        if isinstance(t, T) and t.op == "phi":
-            from ._c07_prov import phi
-            return phi([unfit(x) for x in t.a[0]])
+        from ._c07_prov import arms as _arms, phi
+        if _arms(t) is not None:
+            return phi([unfit(x) for x in _arms(t)])
         while is_mcall(t, "fit"):
             t = t.a[0].a[0]
         return t
@@ -1242,9 +1362,10 @@ def run(ctx):
     eval_key = None
     EA = EvalAnalysis(repo, True)
     for ev in EA.events:
-        if "append" in ev.kinds and ev.args and isinstance(ev.args[0], T) and ev.args[0].op == "dict":
+        row_ = _c07_as_row(ev.args[0]) if "append" in ev.kinds and ev.args else None
+        if isinstance(row_, T) and row_.op == "dict":
             scores = [e.term for e in EA.events if "score" in e.kinds]
-            for kx, vx in ev.args[0].a[0]:
+            for kx, vx in row_.a[0]:
                 if vx in scores and isinstance(kx, T) and kx.op == "cat" and len(kx.a[0]) == 2:
                     pre, nm = kx.a[0]
                     if isinstance(nm, T) and nm.op == "attr" and EA.is_scoring(nm.a[0]):
@@ -1264,6 +1385,6 @@ def run(ctx):
                      "each candidate's row and therefore the selection rest on evaluate()")
     check_no_frozen_ctor_state(ctx, repo)
     ctx.floor("R1", 36)
-    ctx.floor("R2", 14)
+    ctx.floor("R2", 15)
     ctx.floor("R3", 71)
     ctx.floor("R4", 71)
